@@ -801,7 +801,20 @@ def gen_family(rng, force=(), forbid=(), n_masters=None, max_glyphs=14, p_sparse
             cand = [n for n, _, r in roster if r in ("base", "alt") and n not in prot]
             if cand:
                 dslib["public.skipExportGlyphs"] = [rng.choice(cand)]
-    fam = {"features_on": sorted(on), "upm": upm, "axes": axes, "masters": masters,
+    source_order = None
+    nsrc = len(masters) + len(sparse)
+    if nsrc >= 2 and rng.random() < 0.35:
+        source_order = list(range(nsrc))
+        rng.shuffle(source_order)
+    if "categories" in on and axes and rng.random() < 0.3:
+        # designspace-level categories (used by the variable feature writers)
+        dcats = dict(lib.get("public.openTypeCategories", {}))
+        for n in names[:2]:
+            dcats[n] = "base"
+        if marks:
+            dcats[marks[0][0]] = "mark"
+        dslib["public.openTypeCategories"] = dcats
+    fam = {"features_on": sorted(on), "upm": upm, "axes": axes, "masters": masters, "source_order": source_order,
            "sparse": sparse, "rules": rules, "instances": instances, "dslib": dslib,
            "variable_fonts": variable_fonts}
     return fam
